@@ -23,8 +23,8 @@ RULE = ("case = one sampler configuration (method, R, P, V, mask, assignment, sh
         "QMC cases additionally need V_handled>1 and R*P>1 to be able to expose scrambling (counted separately); distinct key = case index")
 ASSUMPTIONS = ["callers do not write into the array returned by generate_samples (ropt's own caller stopped doing so with /repo commit 08fcbdd)",
                "non-shared realizations 'differ' is only required when R>=2 and at least one handled variable (probability of an accidental tie is negligible for continuous draws)"]
-REQUIRED = {"quick": {"calls_checked": 3600, "qmc_vectors_matched": 8000, "qmc_multidim_cases": 296, "lhs_strata_checked": 300, "shared_checked": 600, "unhandled_zero_entries": 5000, "e2e_checked": 120, "calls_with_zero_weight_realizations": 200, "calls_with_merged_gradient_estimation": 800, "e2e_with_zero_weight_realizations": 12, "e2e_with_an_unassigned_variable": 20, "calls_with_more_than_a_thousand_points": 20, "e2e_identically_configured_samplers": 15, "samplers_with_explicit_options": 60, "__nontrivial__": 1142},
-            "thorough": {"calls_checked": 90000, "qmc_vectors_matched": 200000, "qmc_multidim_cases": 7227, "lhs_strata_checked": 8000, "shared_checked": 15000, "unhandled_zero_entries": 120000, "e2e_checked": 2400, "calls_with_zero_weight_realizations": 8000, "calls_with_merged_gradient_estimation": 20000, "e2e_with_zero_weight_realizations": 200, "e2e_with_an_unassigned_variable": 400, "calls_with_more_than_a_thousand_points": 500, "e2e_identically_configured_samplers": 300, "samplers_with_explicit_options": 1500, "__nontrivial__": 27891}}
+REQUIRED = {"quick": {"calls_checked": 3600, "qmc_vectors_matched": 8000, "qmc_multidim_cases": 296, "lhs_strata_checked": 300, "shared_checked": 600, "unhandled_zero_entries": 5000, "e2e_checked": 120, "calls_with_zero_weight_realizations": 200, "calls_with_merged_gradient_estimation": 800, "e2e_with_zero_weight_realizations": 12, "e2e_with_an_unassigned_variable": 20, "e2e_three_samplers": 12, "calls_with_more_than_a_thousand_points": 20, "e2e_identically_configured_samplers": 15, "samplers_with_explicit_options": 60, "__nontrivial__": 1142},
+            "thorough": {"calls_checked": 90000, "qmc_vectors_matched": 200000, "qmc_multidim_cases": 7227, "lhs_strata_checked": 8000, "shared_checked": 15000, "unhandled_zero_entries": 120000, "e2e_checked": 2400, "calls_with_zero_weight_realizations": 8000, "calls_with_merged_gradient_estimation": 20000, "e2e_with_zero_weight_realizations": 200, "e2e_with_an_unassigned_variable": 400, "e2e_three_samplers": 250, "calls_with_more_than_a_thousand_points": 500, "e2e_identically_configured_samplers": 300, "samplers_with_explicit_options": 1500, "__nontrivial__": 27891}}
 N = {"quick": 2000, "thorough": 50000}
 METHODS = ["norm", "uniform", "truncnorm", "sobol", "halton", "lhs", "default"]
 BOUNDED = {"uniform", "truncnorm", "sobol", "halton", "lhs"}
@@ -229,6 +229,13 @@ def _e2e(case, obs):
             spec["samplers"][1] = dict(spec["samplers"][0])
             obs.count("e2e_identically_configured_samplers")
         spec["smap"] = [int(t) for t in rng.integers(0, 2, size=V)]
+        if V >= 3 and rng.random() < 0.35:
+            # three samplers in use
+            spec["samplers"].append({"method": METHODS[int(rng.integers(6))], "shared": bool(rng.random() < 0.4)})
+            sm = rng.integers(0, 3, size=V)
+            sm[rng.permutation(V)[:3]] = [0, 1, 2]
+            spec["smap"] = [int(t) for t in sm]
+            obs.count("e2e_three_samplers")
         if rng.random() < 0.4:
             # a variable assigned to no sampler (-1) is not perturbed; where that entry stands in the assignment does not matter
             spec["smap"][int(rng.integers(V))] = -1
